@@ -272,11 +272,14 @@ def ctor(E, v, which=0, vals=None):
     return "%s { %s }" % (ident, ", ".join("%s: %s" % (f["name"], x) for f, x in zip(v["fields"], xs)))
 
 
-def expected_payload(E, v):
-    """constructor arguments a derive that fills fields with Default / default_with must produce"""
+def expected_payload(E, v, honour_default_with=True):
+    """constructor arguments a derive that fills fields with Default (EnumIter, FromRepr) or Default / default_with
+    (EnumString) must produce"""
     xs = []
     for k, f in enumerate(v["fields"]):
-        if v.get("dwith") and v["kind"] == "tuple":
+        if not honour_default_with:
+            xs.append(_fval(E, f, 0))
+        elif v.get("dwith") and v["kind"] == "tuple":
             xs.append("%s()" % v["dwith"])
         elif f.get("dw"):
             xs.append("%s()" % f["dw"])
@@ -303,7 +306,7 @@ def helper_impl(E):
     return "\n".join(lines)
 
 
-def payload_ok_fn(E):
+def payload_ok_fn(E, honour_default_with=True):
     """free function over the instantiated type: are all fields what Default/default_with give?"""
     lines = ["pub fn payload_ok(x: &%s) -> bool { match x {" % inst(E)]
     for v in E["variants"]:
@@ -311,7 +314,7 @@ def payload_ok_fn(E):
             lines.append("    %s => true," % pattern(E, v))
         else:
             names = ["b%d" % k for k in range(len(v["fields"]))]
-            exp = expected_payload(E, v)
+            exp = expected_payload(E, v, honour_default_with)
             conds = " && ".join("*%s == %s" % (b, e) for b, e in zip(names, exp)) or "true"
             lines.append("    %s => %s," % (pattern(E, v, names), conds))
     if not E["variants"]:
